@@ -55,6 +55,19 @@ class CallMixin:
                 if star.k == "tuple":
                     pos = pos + list(star.x)
                     star = None
+                elif star.k == "val":
+                    # f(*x) for a dynamically typed x: TypeError unless x is a tuple object
+                    is_tup = z3.And(Val.is_RefV(star.t), clsof(Val.rv(star.t)) == self.ct.id("tuple"))
+                    outs = []
+                    for s2, b in self.fork(s, is_tup, "star:tuple"):
+                        if not b:
+                            outs.append(self.raise_new(s2, "TypeError"))
+                            continue
+                        st_ = SV("list", Val.rv(star.t), x="tuple")
+                        kw_ = dict(zip(kw_names, vs[i:i + len(kw_exprs)]))
+                        skw = self.concretize(s2, vs[i + len(kw_exprs)]) if starkw_expr is not None else None
+                        outs.extend(self.call(s2, f, pos, kw_, st_, skw, node=e))
+                    return outs
             kw = dict(zip(kw_names, vs[i:i + len(kw_exprs)]))
             i += len(kw_exprs)
             starkw = None
@@ -387,15 +400,16 @@ class CallMixin:
                 st.heap[name] = arr
         return v
 
-    def havoc(self, st, designators, fid):
-        """havoc the locations named by modifies designators (evaluated in the current state)"""
+    def havoc(self, st, designators, fid, keep=()):
+        """havoc the locations named by modifies designators (evaluated in the current state); `keep` lists heap components a
+        "*" designator leaves alone (the rely that opaque code does not touch those private attributes of pre-existing objects)"""
         for d in designators:
             d = d.strip()
             if d == "*":
                 st.snap["$epoch"] = st.snap.get("$epoch", 0) + 1
                 ep = st.snap["$epoch"]
                 for name in list(st.heap):
-                    if name in ("$alloc", "#NTOP", "#LASTARGS", "#LASTKWDOM", "#LASTKWMAP", "#LASTF"):
+                    if name in ("$alloc", "#NTOP", "#LASTARGS", "#LASTKWDOM", "#LASTKWMAP", "#LASTF", "#NCOPY") or name in keep:
                         continue
                     st.heap[name] = z3.Const("H%d!%s!%d" % (ep, name, self.bump()), st.heap[name].sort())
                 continue
@@ -526,7 +540,7 @@ class CallMixin:
                     self.emit(s, "decreases@%s#%d" % (name, n), z3.And(callee_m.t < caller_m, callee_m.t >= 0), "decreases", c.props)
             old_heap = dict(s.heap)
             entry = dict(s.frames[fid])
-            self.havoc(s, c.modifies, fid)
+            self.havoc(s, c.modifies, fid, keep=c.extra.get("keep", ()))
             a0 = self.harr(s, "$alloc")
             a1 = self.fresh("alloc", I)
             s.assume(a1 >= a0)
@@ -535,6 +549,7 @@ class CallMixin:
                 self.wf_assume(s)
             outcomes = []
             # exceptional outcomes
+            earlier_cls = []
             for ri, rs in enumerate(c.raises or []):
                 s2 = s.copy()
                 er = self.fresh("exc", I)
@@ -542,6 +557,11 @@ class CallMixin:
                 s2.assume(er <= a1)
                 cname = rs.get("cls") or "BaseException"
                 cid = self._register_class(cname)
+                # ordered clauses: a later clause describes exceptions not governed by an earlier unconditional one
+                for ecid in earlier_cls:
+                    s2.assume(z3.Not(issub(clsof(er), ecid)))
+                if not rs.get("when") and not rs.get("same"):
+                    earlier_cls.append(cid)
                 if rs.get("exact", cname not in ("BaseException", "Exception")):
                     s2.assume(clsof(er) == cid)
                     ev_ = SV("inst", er, h=cname, x="exc")
@@ -628,6 +648,19 @@ class CallMixin:
             nt = self.harr(st, "#NTOP")
             st.heap["#NTOP"] = z3.Store(nt, recv.t, z3.Select(nt, recv.t) + 1)
         params = c.extra.get("params")
+        if params is not None and star is not None and starkw is None and not kw:
+            # f(*xs) against a fixed-arity interface: the elements of xs bind the remaining parameters
+            names = [p for p in params if p != "self"]
+            sq = self.seq_of(st, star)
+            rest = names[len(pos):]
+            out = []
+            for s2, b in self.fork(st, z3.Length(sq) == len(rest), "star:arity"):
+                if not b:
+                    out.append(self.raise_new(s2, "TypeError"))
+                    continue
+                pos2 = list(pos) + [SV("val", sq[i]) for i in range(len(rest))]
+                out.extend(self.call_opaque(s2, recv, role, method, pos2, {}, None, None))
+            return out
         if params is not None and star is None and starkw is None:
             fr = {"self": recv}
             names = [p for p in params if p != "self"]
